@@ -433,6 +433,9 @@ func (s *SSEServer) handleSSE(w http.ResponseWriter, r *http.Request) {
 	// Send endpoint event.
 	endpointURL := s.getMessageEndpointForClient(sessionID)
 	if !stream.SendEvent("endpoint", endpointURL) {
+		// The connection is already gone: do not leave the session registered.
+		closeSessionDone(s.logger, session)
+		s.sessions.Delete(sessionID)
 		return
 	}
 
